@@ -39,6 +39,7 @@ type know struct {
 	Blocks      map[string][2]int `json:"blocks"`
 	ExpectClean bool              `json:"expect_clean"`
 	Outside     bool              `json:"outside,omitempty"`
+	IONamed     bool              `json:"ionamed,omitempty"`
 	Forest      []gen.C07Node     `json:"forest,omitempty"`
 	NSMod       map[string]string `json:"nsmod"`
 	Seed        int64             `json:"seed"`
@@ -602,7 +603,7 @@ func hook(c rescorr.Case, ms *yang.Modules, errs []error, out *rescorr.GoOut) {
 
 func caseOf(s *gen.C07Set, seed int64, maxVariants int) rescorr.Case {
 	names, texts := s.Files()
-	k := know{Shape: s.Shape, Shapes: s.Shapes, Augs: s.Augs, Blocks: s.AugBlocks, ExpectClean: s.ExpectClean, Outside: s.OutsideClaim,
+	k := know{Shape: s.Shape, Shapes: s.Shapes, Augs: s.Augs, Blocks: s.AugBlocks, ExpectClean: s.ExpectClean, Outside: s.OutsideClaim, IONamed: s.IONamed,
 		Forest: s.Forest, NSMod: map[string]string{}, Seed: seed, MaxVariants: maxVariants}
 	for _, m := range s.Mods {
 		if !m.Sub {
@@ -1098,6 +1099,43 @@ func corpus(seed int64) []rescorr.Case {
 	out = append(out, hist)
 	hist.Extra = map[string]string{"c07": hist.Extra["c07"], "label": "corpus-history", "process_after": "2"}
 	out = append(out, hist)
+	// 33.-35. ordinary data nodes called input / output (openconfig-qos has both) beside the input and
+	// output of rpcs: as target, on the way to a target, grafted and then chained upon, as a leaf
+	qnm := map[string]string{"urn:y": "y", "urn:x": "x", "urn:z": "z"}
+	out = append(out, corpusCase("nodes-named-input-output-qos", []string{"y.yang", "x.yang", "z.yang"}, []string{
+		"module y {\n  namespace \"urn:y\";\n  prefix y;\n  container qos {\n    container input {\n      leaf rate { type string; }\n      container queues;\n    }\n    container output;\n  }\n}\n",
+		"module x {\n  namespace \"urn:x\";\n  prefix x;\n  import y { prefix y; }\n" +
+			"  augment \"/y:qos/y:input\" { leaf burst { type string; } }\n" +
+			"  augment \"/y:qos/y:input/y:queues\" { leaf depth { type string; } }\n" +
+			"  augment \"/y:qos/y:output\" { container shaper { leaf peak { type string; } } }\n}\n",
+		"module z {\n  namespace \"urn:z\";\n  prefix z;\n  import y { prefix y; }\n  import x { prefix x; }\n" +
+			"  augment \"/y:qos/y:output/x:shaper\" { leaf mode { type string; } }\n}\n"},
+		qnm, []cAug{ap(nd("y", "/y/qos/input/burst", "urn:x")), ap(nd("y", "/y/qos/input/queues/depth", "urn:x")),
+			ap(nd("y", "/y/qos/output/shaper", "urn:x")), ap(nd("y", "/y/qos/output/shaper/mode", "urn:z"))},
+		[]gen.C07Node{nd("y", "/y", "urn:y"), nd("y", "/y/qos", "urn:y"), nd("y", "/y/qos/input", "urn:y"), nd("y", "/y/qos/input/rate", "urn:y"),
+			nd("y", "/y/qos/input/queues", "urn:y"), nd("y", "/y/qos/output", "urn:y"), nd("y", "/y/qos/input/burst", "urn:x"),
+			nd("y", "/y/qos/input/queues/depth", "urn:x"), nd("y", "/y/qos/output/shaper", "urn:x"), nd("y", "/y/qos/output/shaper/peak", "urn:x"),
+			nd("y", "/y/qos/output/shaper/mode", "urn:z"), nd("x", "/x", "urn:x"), nd("z", "/z", "urn:z")},
+		seed+int64(len(out))))
+	add("nodes-named-input-output-beside-rpc", []string{"a.yang", "b.yang"}, []string{
+		hdr("a") + "  rpc r;\n  rpc r2 {\n    input {\n      container input {\n        leaf x { type string; }\n      }\n    }\n  }\n" +
+			"  container c {\n    container input {\n      leaf x { type string; }\n    }\n    leaf output { type string; }\n  }\n" +
+			"  choice ch {\n    case input {\n      container cc;\n    }\n  }\n}\n",
+		hdr("b", "a") + "  augment \"/pa:r/pa:input\" { leaf b1 { type string; } }\n" +
+			"  augment \"/pa:c/pa:input\" { leaf b2 { type string; } container input { leaf deep { type string; } } }\n" +
+			"  augment \"/pa:c/pa:input/pb:input\" { leaf b3 { type string; } }\n" +
+			"  augment \"/pa:r2/pa:input/pa:input\" { leaf b4 { type string; } }\n" +
+			"  augment \"/pa:ch/pa:input/pa:cc\" { leaf b5 { type string; } }\n" +
+			"  augment \"/pa:ch/pa:input\" { leaf b6 { type string; } }\n}\n"},
+		ap(nd("a", "/a/r/input/b1", "urn:b")),
+		cAug{expect: gen.C07Apply, nodes: []gen.C07Node{nd("a", "/a/c/input/b2", "urn:b"), nd("a", "/a/c/input/input", "urn:b")}, flag: "notunique"},
+		ap(nd("a", "/a/c/input/input/b3", "urn:b")), ap(nd("a", "/a/r2/input/input/b4", "urn:b")),
+		ap(nd("a", "/a/ch/input/cc/b5", "urn:b")), ap(nd("a", "/a/ch/input/b6", "urn:b")))
+	add("leaf-named-output-and-collision-with-input", []string{"a.yang", "b.yang"}, []string{
+		hdr("a") + "  container c {\n    container input {\n      leaf x { type string; }\n    }\n    leaf output { type string; }\n  }\n}\n",
+		hdr("b", "a") + "  augment \"/pa:c/pa:output\" { leaf b1 { type string; } }\n" +
+			"  augment \"/pa:c\" { container input { leaf b2 { type string; } } }\n}\n"},
+		cAug{expect: gen.C07NoChildren}, cAug{expect: gen.C07Collide})
 	return out
 }
 
@@ -1135,6 +1173,10 @@ func shapeOf(i int) int {
 		// several revisions of one module or submodule loaded at once: also a fifth
 		return gen.C07MultiRev
 	}
+	if (i/2)%10 == 6 {
+		// ordinary data nodes called input / output beside real rpc input / output
+		return gen.C07IONames
+	}
 	if (i/2)%10 == 8 {
 		// one prefix bound to different modules in the files of one module
 		return gen.C07PrefixClash
@@ -1168,7 +1210,7 @@ func main() {
 	const batch = 4000
 	distinct := lib.NewDistinct()
 	all := lib.NewDistinct()
-	var clean, withErr, outside, skipped, outsideClaim, variantsRun, expClean, expErr, exhaustive, total, childlessSets, childlessSets2, sharedOnlySets, oldRevSets, multiRevSets, pathCases, pathImplicit, pathPartial, noModel, devErrSets, devCtlSets, historyRun, historyBase, clashSets int64
+	var clean, withErr, outside, skipped, outsideClaim, variantsRun, expClean, expErr, exhaustive, total, childlessSets, childlessSets2, sharedOnlySets, oldRevSets, multiRevSets, pathCases, pathImplicit, pathPartial, noModel, devErrSets, devCtlSets, historyRun, historyBase, clashSets, ioSets, ioTarget, ioThrough int64
 	shapeCount := map[string]int64{}
 	expectCount := map[string]int64{}
 	originCount := map[string]int64{}
@@ -1237,6 +1279,17 @@ func main() {
 				if a.PrefixClash {
 					clashSets++
 					break
+				}
+			}
+			if k.IONamed {
+				ioSets++
+			}
+			for _, a := range k.Augs {
+				switch a.IOName {
+				case "target":
+					ioTarget++
+				case "through":
+					ioThrough++
 				}
 			}
 			devErr, devCtl := false, false
@@ -1452,6 +1505,9 @@ func main() {
 	res.Distribution["history_variants_executed(intermediate Process)"] = historyRun
 	res.Distribution["multi_revision_cases_where_the_newest_revision_arrives_after_an_intermediate_Process"] = historyBase
 	res.Distribution["sets_with_one_path_string_under_per_file_prefix_bindings"] = clashSets
+	res.Distribution["sets_with_an_ordinary_node_named_input_or_output"] = ioSets
+	res.Distribution["augments_targeting_an_ordinary_node_named_input_or_output"] = ioTarget
+	res.Distribution["augments_passing_through_an_ordinary_node_named_input_or_output"] = ioThrough
 	res.Distribution["outside_model"] = outside
 	res.Distribution["go_parse_rejected"] = skipped
 	res.Distribution["outside_claim(implicit case as target)"] = outsideClaim
